@@ -56,3 +56,21 @@ func c08Value(maxStr int) {
 
 func C08Value()     { c08Value(2) }
 func C08ValueDeep() { c08Value(4) }
+
+// C07SignatureText: a dynamic value whose signature text is grammatical but inconsistent (struct
+// annotations with more or fewer names than members, taken from the engine's signature catalogue):
+// the decoder must answer with a value or an error, not a crash.
+func C07SignatureText() {
+	sigs := []string{"()<P,a>", "(i)<P,a,b>", "(ii)<P,a>", "[(i)<P,a,b>]", "(i)<P>", "(s)<P,a>"}
+	sig := sigs[sym.Choose("sig", len(sigs))]
+	body := sym.Bytes("body", sym.Choose("n", 9))
+	in := append(zzStr(sig), body...)
+	sym.Bounded(16<<20+64*len(in), len(in)+8, func() {
+		_, err := NewValue(bytes.NewReader(in))
+		if err == nil {
+			sym.Reach("decoded")
+		} else {
+			sym.Reach("rejected")
+		}
+	})
+}
